@@ -717,6 +717,20 @@ package gldap
 //@   ensures err != nil && strcontains(errstr(err), "use of closed network connection") ==> G_lclosed[iref(l)]
 //@   sets G_acctemp[0] = err != nil && implements(err, net.Error) && G_temperr[iref(err)]
 //@   panics false
+// C07: the accept loop (role 1) never waits for a client: a call that blocks on one connection's peer
+// (handshake, reading a packet, raw reads and writes) made there would let a single silent client stop
+// every later connection from being accepted. Functions the accept loop calls (newConn, initConn) do not
+// know their role, so a guarded call inside them fails as well.
+//@ callguard[C07] G_role[0] != 1 : (*crypto/tls.Conn).Handshake, (*crypto/tls.Conn).HandshakeContext, github.com/go-asn1-ber/asn1-ber.ReadPacket, iface:net.Conn.Read, iface:net.Conn.Write, (*crypto/tls.Conn).Read, (*crypto/tls.Conn).Write, (*bufio.Reader).Read, (*bufio.Reader).ReadByte, (*bufio.Reader).Peek, (*bufio.Writer).Flush, io.ReadFull, io.ReadAll, io.Copy
+//@ extern iface:net.Conn.RemoteAddr
+//@   params c net.Conn
+//@   results a net.Addr
+//@   ensures !isNilIface(a)
+//@   panics false
+//@ extern iface:net.Addr.String
+//@   params a net.Addr
+//@   results s string
+//@   panics false
 //@ extern time.Sleep
 //@   params d time.Duration
 //@   panics false
@@ -765,6 +779,11 @@ package gldap
 //@   panics false
 //@   modifies nothing
 //@   trusted
+// C09/C06: a connection's ID and a request's number never change after they were assigned: the fields are
+// written only where the object is built (package-wide frame condition over every store in both packages).
+//@ writeonly[C09] gldap.conn.connID by gldap.newConn
+//@ writeonly[C06] gldap.Request.ID by gldap.newRequest, (*gldap.conn).serveRequests
+//@ writeonly[C06,C09] gldap.Request.conn by gldap.newRequest, (*gldap.conn).serveRequests
 //@ func gldap.newConn
 //@   requires connID > G_maxid[0]
 //@   ensures  err == nil ==> result0 != nil && fresh(result0) && result0.connID == connID && connID != 0 && result0.netConn == netConn && result0.router == router && !isNilIface(result0.logger)
@@ -779,7 +798,7 @@ package gldap
 //@   sets     G_connclosed[result0] = 0 when err == nil
 //@   panics false
 //@   modifies conn.netConn, conn.reader, conn.writer
-//@   tags C09 C18 C15
+//@   tags C09 C18 C15 C07
 
 //@ func (*gldap.Server).Run$1
 //@   requires s != nil && !isNilIface(s.logger) && conn != nil && connOK(conn) && !isNilIface(c) && localConnID == conn.connID && G_wgcnt[&s.connWg] > 0
@@ -792,6 +811,7 @@ package gldap
 //@   tags C08 C07 C09 C18
 //@ func (*gldap.Server).Run
 //@   requires srvOK(s) && !held(&s.mu) && G_maxid[0] == 0 && G_wgcnt[&s.connWg] >= 0
+//@   requires[C07] G_role[0] == 1
 //@   ensures  !held(&s.mu)
 //@   ensures[C12] err == nil ==> !isNilIface(s.listener) && G_lclosed[iref(s.listener)]
 //@   ensures[C07] err != nil ==> !G_acctemp[0] || old(G_acctemp[0])
@@ -1250,7 +1270,7 @@ package gldap
 //@   sets     G_guard[c.writer] = &c.writerMu when result == nil
 //@   panics false
 //@   modifies conn.netConn, conn.reader, conn.writer
-//@   tags C05 C13 C18 C15
+//@   tags C05 C13 C18 C15 C07
 
 // Request.StartTLS (called by a StartTLS handler, inline on the connection
 // goroutine): on success the connection reads and writes through a TLS server
